@@ -81,6 +81,31 @@ RedirectRotate(h1, h2, c) ==
                       got |-> {h1} \cup (IF r2[4] THEN {h2} ELSE {})]
   /\ act' = <<"RedirectRotate", h1, h2, c>>
   /\ UNCHANGED tofuOn
+\* another user of the same pin store (a second client, `nauyaca tofu trust`) pins h := c while this call's connection is
+\* being established: the check made after the handshake sees the store as it is then
+CallRacing(ep, h, c) ==
+  /\ Step /\ tofuOn
+  /\ LET p1 == [pins EXCEPT ![h] = c]
+         r == Connect(ep, h, p1) IN
+     /\ pins' = r[3]
+     /\ last' = [op |-> ep, h |-> h, ok |-> r[1], err |-> r[2], before |-> p1, shown |-> presents[h],
+                 got |-> IF r[4] THEN {h} ELSE {}]
+  /\ act' = <<"CallRacing", ep, h, c>>
+  /\ UNCHANGED <<presents, tofuOn>>
+\* the k-th statement the call issues against the pin store fails ("database is locked", I/O error): the call either
+\* fails safely - nothing sent, nothing pinned - or (the statement was not essential / there was no k-th one) ends as Call
+CallStoreFault(ep, h, k) ==
+  /\ Step
+  /\ \/ /\ tofuOn /\ pins' = pins
+        /\ last' = [op |-> ep, h |-> h, ok |-> FALSE, err |-> "store", before |-> pins, shown |-> presents[h], got |-> {}]
+     \/ LET r == Connect(ep, h, pins) IN
+        /\ pins' = r[3]
+        /\ last' = [op |-> ep, h |-> h, ok |-> r[1], err |-> r[2], before |-> pins, shown |-> presents[h],
+                    got |-> IF r[4] THEN {h} ELSE {}]
+  /\ act' = <<"CallStoreFault", ep, h, k>>
+  /\ UNCHANGED <<presents, tofuOn>>
+\* the client object is used as a context manager and used again afterwards: leaving the block changes nothing
+ContextCycle == /\ Step /\ last' = Idle /\ act' = <<"ContextCycle">> /\ UNCHANGED <<pins, presents, tofuOn>>
 Rotate(h, c) == /\ Step /\ presents[h] # c /\ presents' = [presents EXCEPT ![h] = c] /\ last' = Idle
                 /\ act' = <<"Rotate", h, c>> /\ UNCHANGED <<pins, tofuOn>>
 Trust(h, c)  == /\ Step /\ tofuOn /\ pins' = [pins EXCEPT ![h] = c] /\ last' = Idle
@@ -108,13 +133,18 @@ Next == \/ \E ep \in {"get", "upload"}, h \in HP : Call(ep, h)
         \/ \E h \in HP, c \in Certs : ImportReplace(h, c)
         \/ \E h \in HP, c \in Certs : ImportUpdate(h, c)
         \/ \E h1 \in HP, h2 \in HP, c \in Certs \cup {Bad} : RedirectRotate(h1, h2, c)
+        \/ \E ep \in {"get", "upload"}, h \in HP, c \in Certs : CallRacing(ep, h, c)
+        \/ \E ep \in {"get", "upload"}, h \in HP, k \in 0..3 : CallStoreFault(ep, h, k)
+        \/ ContextCycle
 Spec == Init /\ [][Next]_vars
 \* ---- properties (C03) ----
 Called == last.op # "none" /\ tofuOn
 PinRespected == (Called /\ last.ok) => (last.shown # Bad /\ last.before[last.h] \in {None, last.shown})
-ChangedFails == (Called /\ last.shown # Bad /\ last.before[last.h] \notin {None, last.shown}) => (~last.ok /\ last.err = "changed" /\ pins = last.before)
+\* (when the pin store itself fails during the call the error may be the store's: the call still fails and nothing changes)
+ChangedFails == (Called /\ last.shown # Bad /\ last.before[last.h] \notin {None, last.shown})
+                   => (~last.ok /\ (last.err = "changed" \/ (act[1] = "CallStoreFault" /\ last.err = "store")) /\ pins = last.before)
 FirstUsePins == (Called /\ last.ok /\ last.before[last.h] = None) => pins[last.h] = last.shown
-FailureKeepsPins == (Called /\ ~last.ok /\ last.err \in {"changed", "unreadable"}) => pins = last.before
+FailureKeepsPins == (Called /\ ~last.ok /\ last.err \in {"changed", "unreadable", "store"}) => pins = last.before
 \* the pin is written when the certificate is verified, not when (and if) a response arrives
 FirstContactPins == (Called /\ last.err = "dropped" /\ last.before[last.h] = None) => pins[last.h] = last.shown
 Isolation == Called => \A h \in HP : h # last.h => pins[h] = last.before[h]
